@@ -22,12 +22,36 @@ func callArgParams(p *packages.Package, body ast.Node, lparen token.Pos, text st
 		}
 		return call == nil
 	})
-	if call == nil {
-		return nil
-	}
 	e, err := parser.ParseExpr(text)
 	if err != nil {
 		return nil
+	}
+	if call == nil {
+		// pseudo call site of a channel send: arg0 the channel, arg1 the value sent
+		var send *ast.SendStmt
+		ast.Inspect(body, func(n ast.Node) bool {
+			if ss, ok := n.(*ast.SendStmt); ok && ss.Arrow == lparen {
+				send = ss
+			}
+			return send == nil
+		})
+		if send == nil {
+			return nil
+		}
+		var out []clauseParam
+		ct := p.TypesInfo.TypeOf(send.Chan)
+		for _, name := range freeIdents(e) {
+			switch name {
+			case "arg0":
+				out = append(out, clauseParam{Name: name, Type: ct, Kind: "arg"})
+			case "arg1":
+				if ch, ok := ct.Underlying().(*types.Chan); ok {
+					out = append(out, clauseParam{Name: name, Type: ch.Elem(), Kind: "arg"})
+				}
+			}
+		}
+		sort.Slice(out, func(i, j int) bool { return out[i].Name < out[j].Name })
+		return out
 	}
 	var argTypes []types.Type
 	ft := p.TypesInfo.TypeOf(call.Fun)
